@@ -86,6 +86,10 @@ class ProgGen:
     # -- facts ---------------------------------------------------------------
     def gen_facts(self):
         rnd = self.rnd
+        if rnd.random() < 0.5:
+            self.clauses.append(('same', [('V', 'A'), ('V', 'A')], 'tru'))
+            self.preds.append(('same', 2))
+            self.nsol[('same', 2)] = 1
         for i in range(rnd.randint(*self.k.n_facts)):
             name = 'f%d' % i
             arity = rnd.randint(0 if rnd.random() < 0.1 else 1, self.k.max_arity)
@@ -109,9 +113,14 @@ class ProgGen:
     def goal(self, vars_):
         rnd = self.rnd
         r = rnd.random()
-        if self.k.eq and r < 0.15:
-            op = '=' if rnd.random() < 0.7 else '\\='
+        if self.k.eq and r < 0.18:
+            op = '=' if rnd.random() < 0.75 else '\\='
+            if vars_ and rnd.random() < 0.4:
+                # variable-variable aliasing, in both directions
+                return ('call', op, [('V', rnd.choice(vars_)), ('V', rnd.choice(vars_))])
             return ('call', op, [sterm(rnd, vars_, 1, 0.7), sterm(rnd, vars_, 1, 0.4)])
+        if r < 0.24 and ('same', 2) in self.preds:
+            return ('call', 'same', [('V', rnd.choice(vars_)) if vars_ else ('_',), sterm(rnd, vars_, 1, 0.8)])
         if self.k.meta and r < 0.4:
             return self.meta_goal(vars_)
         if self.k.db and r < 0.45:
@@ -134,6 +143,18 @@ class ProgGen:
     def meta_goal(self, vars_):
         rnd = self.rnd
         r = rnd.random()
+        if r < 0.15 and vars_:
+            # maplist/closure style: one goal term, called twice with different extra arguments
+            cands = [p for p in self.preds if p[1] >= 1]
+            if cands:
+                name, arity = rnd.choice(cands)
+                drop = rnd.randint(1, min(2, arity))
+                fixed = [sterm(rnd, vars_, 1, 0.5) for _ in range(arity - drop)]
+                g = ('F', name, fixed) if fixed else ('A', name)
+                gv = ('V', 'G')
+                e1 = [sterm(rnd, vars_, 1, 0.75) for _ in range(drop)]
+                e2 = [sterm(rnd, vars_, 1, 0.75) for _ in range(drop)]
+                return ('conj', ('call', '=', [gv, g]), ('conj', ('call', 'call', [gv] + e1), ('call', 'call', [gv] + e2)))
         if r < 0.4:
             drop = rnd.choice([0, 0, 1, 2])
             g, arity = self.plain_goal_term(vars_, drop)
@@ -220,8 +241,28 @@ class ProgGen:
         ('len', [('P', [('_',)], ('V', 'T')), ('F', 's', [('V', 'N')])], ('call', 'len', [('V', 'T'), ('V', 'N')])),
     ]
 
+    def alias_family(self):
+        """variable-variable aliasing that is made, looked at, undone and redone differently:
+        al0(X) :- X = Y, al1(Y).   al1(Y) :- Y = Z.   al1(a).   al1(b).   (and variations)"""
+        rnd = self.rnd
+        V = lambda n: ('V', n)
+        link = rnd.choice([('call', '=', [V('X'), V('Y')]), ('call', '=', [V('Y'), V('X')]), ('call', 'same2', [V('X'), V('Y')])])
+        second = rnd.choice([('call', 'al1', [V('Y')]), ('conj', ('call', 'al1', [V('Y')]), ('call', 'al1', [V('W')]))])
+        out = [('same2', [V('A'), V('A')], 'tru'), ('al0', [V('X')], ('conj', link, second), True)]
+        inner = [('al1', [V('Y')], rnd.choice([('call', '=', [V('Y'), V('Z')]), ('call', 'same2', [V('Y'), V('Z')]),
+                                                 ('call', '=', [V('Z'), V('Y')]), ('conj', ('call', '=', [V('Y'), V('Z')]), ('call', '=', [V('Z'), V('U')]))]), True),
+                 ('al1', [('A', 'one')], 'tru'), ('al1', [('A', 'two')], 'tru'), ('al1', [('F', 'f', [V('Q')])], 'tru')]
+        rnd.shuffle(inner)
+        out += inner[:rnd.randint(2, 4)]
+        self.clauses.extend(out)
+        self.preds.extend([('al0', 1), ('al1', 1)])
+        self.alias = True
+
     def program(self):
+        self.alias = False
         self.gen_facts()
+        if self.rnd.random() < 0.35:
+            self.alias_family()
         if self.rnd.random() < self.k.recursive:
             self.clauses.extend(self.RECURSIVE)
             self.recursive = True
@@ -238,6 +279,8 @@ class ProgGen:
             name, arity = rnd.choice(rules if rules and rnd.random() < 0.8 else self.preds)
             nv = rnd.randint(1, 3)
             qs.append((name, [mterm_query(rnd, nv) for _ in range(arity)]))
+        if getattr(self, 'alias', False):
+            qs.append(('al0', [[Sym('v'), 0]]))
         if self.recursive:
             lst = lambda xs: mlist(xs)
             a = [Sym('a'), 'a']; b = [Sym('a'), 'b']; c = [Sym('a'), 'c']
